@@ -544,6 +544,7 @@ type Contract struct {
 	Modifies  []string // array-level items (textual), "nothing" omitted
 	ModAll    bool     // modifies *
 	Loops     map[int]*LoopSpec
+	LoopBinds map[int]string // 'loop N binds x': ordinal N names the source loop that declares x (not the N-th loop)
 	Pure      bool
 	Trusted   bool // contract assumed, body not verified
 	Overflow  bool // check overflow obligations
@@ -688,7 +689,7 @@ func parseSpecLines(file string, pkg string, lines []specLine) (*SpecFile, error
 			pkg = d.text
 			cur = nil
 		case "func":
-			cur = &Contract{FuncName: d.text, Pkg: pkg, Loops: map[int]*LoopSpec{}, File: file, Line: d.line, CallWith: map[string]string{}}
+			cur = &Contract{FuncName: d.text, Pkg: pkg, Loops: map[int]*LoopSpec{}, LoopBinds: map[int]string{}, File: file, Line: d.line, CallWith: map[string]string{}}
 			sf.Contracts = append(sf.Contracts, cur)
 		case "requires", "ensures":
 			if cur == nil {
@@ -731,6 +732,10 @@ func parseSpecLines(file string, pkg string, lines []specLine) (*SpecFile, error
 				return nil, errf("loop: expected ordinal")
 			}
 			rest = strings.TrimSpace(strings.TrimLeft(rest, "0123456789"))
+			if strings.HasPrefix(rest, "binds ") {
+				cur.LoopBinds[n] = strings.TrimSpace(rest[len("binds "):])
+				continue
+			}
 			if !strings.HasPrefix(rest, "invariant") {
 				return nil, errf("loop: expected 'invariant'")
 			}
